@@ -185,6 +185,7 @@ let check (case : Sexp.t) : unit =
               | None, "panic" -> bump "points_malformed_both_reject"
               | None, o -> viol "contains" (Printf.sprintf "x=%s impl=%s model=panic (wrong length)" xs o)
               | Some _, "panic" -> viol "contains" (Printf.sprintf "x=%s impl=panic" xs)
+              | Some _, o when o <> "t" && o <> "f" -> viol "contains" (Printf.sprintf "x=%s owned and view queries differ: %s" xs o)
               | Some mb, o ->
                 let ib = (o = "t") in
                 if mb <> ib then viol "contains" (Printf.sprintf "x=%s impl contains=%b model contains_tol(1e-8)=%b result=%s" xs ib mb (string_of_aff a));
